@@ -248,12 +248,20 @@ func dialLegacyIn(addr, connID, extraHeaders string) (net.Conn, *bufio.Reader, e
 	return in, br, nil
 }
 
+// legacyInHdr, when set, replaces the extra headers on the RDG_IN_DATA leg of dialLegacy (the two
+// legs of a legacy tunnel are separate requests and can come from different addresses).
+var legacyInHdr string
+
 func dialLegacy(addr, connID, extraHeaders string) (*legacyClient, error) {
 	out, obr, err := dialLegacyOut(addr, connID, extraHeaders)
 	if err != nil {
 		return nil, err
 	}
-	in, ibr, err := dialLegacyIn(addr, connID, extraHeaders)
+	inHdr := extraHeaders
+	if legacyInHdr != "" {
+		inHdr = legacyInHdr
+	}
+	in, ibr, err := dialLegacyIn(addr, connID, inHdr)
 	if err != nil {
 		out.Close()
 		return nil, err
